@@ -443,13 +443,32 @@ def sysv(prog, rep):
     okr = not badr and seen["rmid"] >= 1
     rep.ob("C06.5", cl, "remove:owner", okr, "the set is removed (IPC_RMID) only with sem_created known TRUE" if okr else
            ("line %d: the set is removed without sem_created tested TRUE: a visitor's free destroys the counter others use" % badr[0] if badr else "no IPC_RMID found"), cl.loc[0])
-    rep.floor("C06.5", 5)
+    # 0 is a valid set id (the first set created in an IPC namespace gets it): the handle is invalid only when it is -1
+    from plint.wiring import id_validity_tests
+    nid, badid = id_validity_tests(u, "sem_hdl")
+    rep.ob("C06.5", badid[0][0] if badid else u.fn("pp_semaphore_clean_handle", raw=True), "id:validity", nid >= 2 and not badid,
+           "%d tests of sem_hdl separate exactly the failure value -1 from the valid ids" % nid if (nid >= 2 and not badid) else
+           ("line %d: %s treats a valid set id as no handle (`%s`): for the set with that id the owner's free skips IPC_RMID, or the create path misjudges its result, and the "
+            "next opener attaches to the stale counter" % (line(badid[0][1]), badid[0][0].name, badid[0][2]) if badid else "fewer than two validity tests of sem_hdl found"),
+           badid[0][1] if badid else u.fn("pp_semaphore_clean_handle", raw=True).loc[0])
+    rep.floor("C06.5", 5 + 1)
 
+
+# objects are zero-filled at birth: the functions of these units rely on it for every field their constructors do not store
+_run_clauses = run
+
+
+def run(prog, rep):
+    _run_clauses(prog, rep)
+    from plint.wiring import check_zero_init
+    check_zero_init(rep, "C06.2", prog, ['psemaphore-posix.c', 'psemaphore-sysv.c'], 2)
 
 # generic robustness battery: renaming every local/parameter in these files must not change any verdict
 RENAME_LOCALS = ['src/psemaphore-posix.c']
 
 SELFTEST = [
+    dict(id="sysv-clean-handle-id-zero-invalid", file="src/psemaphore-sysv.c", expect="C06.5",
+         old="\tif (sem->sem_hdl != P_SEM_INVALID_HDL &&\n\t    sem->sem_created == TRUE &&", new="\tif (sem->sem_hdl > 0 &&\n\t    sem->sem_created == TRUE &&"),
     dict(id="platform-key-static-context", file="src/pipc.c", expect="C06.4",
          old="\tPCryptoHash\t*sha1;\n\tpchar\t\t*hash_str;", new="\tstatic PCryptoHash\t*sha1;\n\tpchar\t\t*hash_str;"),
     dict(id="sysv-release-without-undo", file="src/psemaphore-sysv.c", expect="C06.5",
